@@ -14,7 +14,7 @@ func c07Cfg(opts flags.Options) *DeclCfg {
 	types := []TypeSpec{{K: KString}, {K: KBool}, {K: KBool}, {K: KInt}, {K: KString, W: WSlice}, {K: KBool, W: WSlice}, {K: KFloat64}, {K: KString, W: WMap, MapKey: KString}}
 	return &DeclCfg{
 		MaxDepth: 3, MaxFan: 3, PCmds: 70, Types: types, OptsMin: 1, OptsMax: 4, SubGroupsMax: 1, NestMax: 2,
-		PNamespace: 45, PShortOnly: 15, PLongOnly: 20, PClash: 10, NonASCII: true,
+		PNamespace: 45, PShortOnly: 15, PLongOnly: 20, PClash: 10, NonASCII: true, PNoFlag: 35,
 		PPos: 25, PosMax: 2, PRest: 40, PExec: 40, PByTag: 50, PSubOptional: 45, PAliases: 20,
 		ParserOpts: []flags.Options{opts}, NsDelims: []string{"", ".", "-", "::"}, PosTypes: []TypeSpec{{K: KString}},
 	}
@@ -110,10 +110,35 @@ func c07Run(c *Ctx) {
 	cur := cmdBefore(d, valid, pos)
 	scope := d.ScopeOf(cur)
 	// choose the unknown token
-	kind := []string{"near-miss", "near-miss", "out-of-scope", "cluster"}[(c.K/12)%4]
+	kind := []string{"near-miss", "near-miss", "out-of-scope", "cluster", "no-flag-field"}[(c.K/12)%5]
 	var tok, name string
 	cluster := false
 	switch kind {
+	case "no-flag-field":
+		// a name declared only inside a struct field tagged no-flag is not an option
+		var nfs []*NoFlagField
+		for _, cm := range cur.Chain() {
+			var rec func(g *Grp)
+			rec = func(g *Grp) {
+				nfs = append(nfs, g.NoFlag...)
+				for _, s := range g.Subs {
+					rec(s)
+				}
+			}
+			rec(cm.G)
+		}
+		if len(nfs) == 0 {
+			kind = "near-miss"
+			break
+		}
+		nf := nfs[r.Intn(len(nfs))]
+		name = nf.Long
+		if r.Bool() {
+			name = nf.Long + "-level"
+			tok = "--" + name + "=3"
+		} else {
+			tok = "--" + name + "=x"
+		}
 	case "out-of-scope":
 		var ok bool
 		tok, name, ok = outOfScopeToken(r, d, cur, scope)
@@ -176,10 +201,6 @@ func c07Run(c *Ctx) {
 				c.Unspec("pass-through before a required command word")
 				return
 			}
-		}
-		if cluster {
-			c.Unspec("cluster with an unknown rune under IgnoreUnknown (side effects of its known members are unspecified)")
-			return
 		}
 	}
 	fault := &Item{Kind: IFault, Toks: []string{tok}, Note: "unknown " + kind}
@@ -246,6 +267,65 @@ func c07Run(c *Ctx) {
 		}
 		c.Held(cell, shape)
 	case "ignore":
+		if cluster {
+			// the side effects of the cluster's known members are unspecified, but the token itself must be passed
+			// through verbatim: model-free conservation (every returned/positional string is an input token)
+			if o.Err != nil {
+				if _, isSentinel := o.Err.(*sentinelErr); !isSentinel && o.FErr != nil && o.FErr.Type == flags.ErrUnknownFlag {
+					c.Violate("ignore:cluster:rejected", "IgnoreUnknown: cluster %q made the parse fail: %v", tok, o.Err)
+				} else {
+					c.Unspec("cluster with an unknown rune under IgnoreUnknown: later effects unspecified")
+				}
+				return
+			}
+			tokset := map[string]bool{}
+			for _, a := range args {
+				tokset[a] = true
+			}
+			found := false
+			for _, x := range o.Rest {
+				if !tokset[x] {
+					c.Violate("ignore:cluster:altered", "remaining argument %q is not an input token (cluster %q)", x, tok)
+					return
+				}
+				if x == tok {
+					found = true
+				}
+			}
+			for _, cm := range d.Cmds {
+				if cm.Pos == nil {
+					continue
+				}
+				for _, a := range cm.Pos.Args {
+					if !a.Val.IsValid() {
+						continue
+					}
+					var vals []string
+					if a.IsRest() {
+						for i := 0; i < a.Val.Len(); i++ {
+							vals = append(vals, a.Val.Index(i).String())
+						}
+					} else if a.Val.String() != "" {
+						vals = append(vals, a.Val.String())
+					}
+					for _, x := range vals {
+						if !tokset[x] {
+							c.Violate("ignore:cluster:altered", "positional value %q is not an input token (cluster %q)", x, tok)
+							return
+						}
+						if x == tok {
+							found = true
+						}
+					}
+				}
+			}
+			if !found {
+				c.Violate("ignore:cluster:not-passed-through", "cluster %q was not passed through verbatim (rest %q)", tok, o.Rest)
+				return
+			}
+			c.Held(cell, shape)
+			return
+		}
 		dn := Denote(d, items)
 		s2 := &Scenario{D: d, Items: items, Exp: dn.Exp, Final: dn.Final}
 		if dn.Broken != "" || s2.NeedsCommand() {
